@@ -5,7 +5,9 @@ VERIF = os.path.dirname(os.path.dirname(os.path.abspath(__file__)))
 ALL = [f"C{i:02d}" for i in range(1, 20)]
 
 # properties whose model functions are bridged to translator output (DESIGN 13)
-BRIDGED = {"C05", "C06", "C07", "C08", "C09", "C10", "C11", "C12", "C19"}
+BRIDGED = {"C01", "C02", "C03", "C04", "C05", "C06", "C07", "C08", "C09", "C10", "C11", "C12", "C13", "C16", "C19"}
+# properties whose model is (also) hand-written against source text that is fingerprinted (extract/shapes.py)
+SHAPED = {f"C{i:02d}" for i in range(1, 20)}
 
 CLAIMS = {
  "C06": dict(
@@ -199,7 +201,9 @@ def main():
         c = dict(CLAIMS[pid])
         if pid in BRIDGED:
             c["technique"] = c["technique"] + "; the model functions involved are proved equal to (or simulated by) definitions the translator regenerates from the Rust source on every run (Proofs/Bridge*.lean)"
-            c["note"] = c["note"] + " Translator (extract/rs2lean.py, rsparse.py): trusted to map the Rust subset to Lean as DESIGN 13 states (u32 as Nat without wrap-around, f64 as exact rationals, log macros dropped); a change to a translated function regenerates its Lean definition and the bridge theorem must still check."
+            c["note"] = c["note"] + " Translator (extract/rs2lean.py, rsparse.py): trusted to map the Rust subset to Lean as DESIGN 13-14 state (u32 as Nat: `<<` wrapping at the operand width in the bit/CRC/frame layer, elsewhere on fields proved to fit; + - * without wrap-around, their sites in the C01 inventory; f64 as exact rationals; HashMap/BTreeMap as association lists; locks always granted; log macros dropped); a change to a translated function regenerates its Lean definition and the bridge theorem must still check."
+        if pid in SHAPED:
+            c["note"] = c["note"] + " Hand-modelled code this property rests on (runner.py HAND_MODELLED) is fingerprinted token-wise against known/source_shapes.json: review plus change detection, not proof. Every alarm is confirmed by a second identical pass before it is reported (wall clock inside the implementation)."
         checks.append({
             "property_id": pid,
             "quick_cmd": f"./check {pid} --tier quick",
@@ -224,7 +228,7 @@ def main():
         "engines": [
             {"name": "lean", "path": "lean/", "serves_properties": sorted(CLAIMS), "kind_free_text": "Lean 4 model, specifications, proofs, compiled model driver"},
             {"name": "harness", "path": "harness/", "serves_properties": sorted(CLAIMS), "kind_free_text": "Rust correspondence harness driving the real code in-process (overflow checks on)"},
-            {"name": "extract", "path": "extract/", "serves_properties": sorted(CLAIMS), "kind_free_text": "source -> Lean, regenerated on every run: tables (extract.py) and a translator of the decoder's Rust subset to Lean definitions (rsparse.py, rs2lean.py: 101 functions incl. every row-update method)"},
+            {"name": "extract", "path": "extract/", "serves_properties": sorted(CLAIMS), "kind_free_text": "source -> Lean, regenerated on every run: tables (extract.py) and a translator of the decoder's Rust subset to Lean definitions (rsparse.py, rs2lean.py: 134 functions - bit extraction, CRC, frame gate, every field decoder, every row-update method, the table update, the expiry sweep and the loop body of read_lines); token fingerprints of the hand-modelled rest (shapes.py)"},
             {"name": "orchestrate", "path": "orchestrate/", "serves_properties": sorted(CLAIMS), "kind_free_text": "generators, comparison, evidence, violation protocol"},
         ],
         "checks": checks,
